@@ -7,7 +7,7 @@ namespace Clemens
 
 /-! ### lists of squares -/
 
-theorem mem_squares {b : BB} {i : Nat} : i ∈ squares b ↔ i < 64 ∧ b.getLsbD i = true := by
+theorem mem_squares_B {b : BB} {i : Nat} : i ∈ squares b ↔ i < 64 ∧ b.getLsbD i = true := by
   unfold squares; simp [List.mem_filter]
 
 theorem squares_and (a b : BB) : squares (a &&& b) = (squares a).filter (fun i => b.getLsbD i) := by
@@ -152,12 +152,12 @@ theorem filter_genHelper {p : Pos} (hw : wfShape p = true) (hside : p.side < 2) 
   rw [List.filter_flatMap]
   apply flatMap_congr'
   intro s hs
-  have hs : s < 64 := (mem_squares.1 hs).1
+  have hs : s < 64 := (mem_squares_B.1 hs).1
   rw [List.filter_map, ← filter_dest hw hside (attacks s)]
   congr 1
   apply List.filter_congr
   intro t ht
-  have ht : t < 64 := (mem_squares.1 ht).1
+  have ht : t < 64 := (mem_squares_B.1 ht).1
   simp only [Function.comp]
   exact isCapture_mk0 p hs ht
 
@@ -180,7 +180,7 @@ theorem filter_pushes {p : Pos} (hw : wfShape p = true) {s : Nat} (hs : s < 64) 
   intro m hm
   rw [List.mem_flatMap] at hm
   obtain ⟨t, ht, hm⟩ := hm
-  obtain ⟨ht64, hbit⟩ := mem_squares.1 ht
+  obtain ⟨ht64, hbit⟩ := mem_squares_B.1 ht
   have hfree := pawnPushes_free _ _ _ _ hbit
   rw [all_getLsbD hw ht64] at hfree
   rw [isCapture_pawnMove p hs ht64 hm, hfree]
@@ -193,7 +193,7 @@ theorem filter_pawnCaptures {p : Pos} (hw : wfShape p = true) (hside : p.side < 
   unfold genPawnCaptures at hm
   rw [List.mem_flatMap] at hm
   obtain ⟨t, ht, hm⟩ := hm
-  obtain ⟨ht64, hbit⟩ := mem_squares.1 ht
+  obtain ⟨ht64, hbit⟩ := mem_squares_B.1 ht
   rw [BitVec.getLsbD_and, Bool.and_eq_true] at hbit
   rw [isCapture_pawnMove p hs ht64 hm]
   exact enemy_occupied hw hside ht64 hbit.2
@@ -206,7 +206,7 @@ theorem filter_enPassant (p : Pos) {s : Nat} (hs : s < 64) :
   split at hm
   · rw [List.mem_map] at hm
     obtain ⟨t, ht, rfl⟩ := hm
-    exact isCapture_mk2 p hs (mem_squares.1 ht).1
+    exact isCapture_mk2 p hs (mem_squares_B.1 ht).1
   · exact absurd hm (by simp)
 
 theorem filter_pawns {p : Pos} (hw : wfShape p = true) (hside : p.side < 2) :
@@ -217,7 +217,7 @@ theorem filter_pawns {p : Pos} (hw : wfShape p = true) (hside : p.side < 2) :
   rw [List.filter_flatMap]
   apply flatMap_congr'
   intro s hs
-  have hs : s < 64 := (mem_squares.1 hs).1
+  have hs : s < 64 := (mem_squares_B.1 hs).1
   rw [List.filter_append, List.filter_append, filter_pushes hw hs, filter_pawnCaptures hw hside hs,
     filter_enPassant p hs, List.nil_append]
 
@@ -340,7 +340,7 @@ theorem lsb_of_popcount_one {b : BB} {i : Nat} (hp : popcount b = 1) (hi : i < 6
     lsb b = i := by
   unfold popcount at hp
   unfold lsb
-  have hmem : i ∈ squares b := mem_squares.2 ⟨hi, hb⟩
+  have hmem : i ∈ squares b := mem_squares_B.2 ⟨hi, hb⟩
   match hsq : squares b, hp, hmem with
   | [x], _, hmem =>
     rw [List.mem_singleton] at hmem
